@@ -178,7 +178,11 @@ Print Assumptions C01_batch_inversion_zero_panics.
 
 Example C01_batch_inversion_nonvacuous :
   Forall canon [bfe_new 2; bfe_new 3] /\ Forall (fun x => x <> 0) [bfe_new 2; bfe_new 3].
-Proof. split; repeat constructor; try discriminate; vm_compute; reflexivity. Qed.
+Proof.
+  split.
+  - repeat (apply Forall_cons; [apply canonb_spec; vm_compute; reflexivity|]). apply Forall_nil.
+  - repeat (apply Forall_cons; [vm_compute; discriminate|]). apply Forall_nil.
+Qed.
 
 (* ---------------------------------------------------------------- the extension field as a field (proofs/XFieldOk.v)
    Fp3 = Fp x Fp x Fp with the product of Fp[X]/(X^3 - X + 1) is a field `k3_field` (lib/FieldTheory.v: fieldK, the ring
@@ -221,7 +225,12 @@ Print Assumptions C01_xbatch_inversion_zero_panics.
 Example C01_xbatch_inversion_nonvacuous :
   Forall canon3 [xlift (bfe_new 2); (bfe_new 1, bfe_new 2, bfe_new 3)] /\
   Forall (fun x => x <> xzero) [xlift (bfe_new 2); (bfe_new 1, bfe_new 2, bfe_new 3)].
-Proof. split; repeat constructor; try discriminate; vm_compute; reflexivity. Qed.
+Proof.
+  split.
+  - repeat (apply Forall_cons; [unfold canon3, xlift; repeat split; try (apply canonb_spec; vm_compute; reflexivity)|]).
+    apply Forall_nil.
+  - repeat (apply Forall_cons; [vm_compute; discriminate|]). apply Forall_nil.
+Qed.
 
 (* `XFieldElement * BFieldElement` is the product with the lift; the lift is a field embedding of the base field *)
 Theorem C01_xscale_is_mul_by_lift : forall x k, canon3 x -> canon k -> xscale x k = xmul x (xlift k).
